@@ -31,6 +31,8 @@ POOL = [
     ('text', '   \t ', None),
     ('text', '  indented chatter [not a message] (really)  ', None),
     ('text', '[1000.800] looks like a stamp but is not a message', None),
+    ('msg', '[1000.850] zz_unknown_iface@7.long_one("' + 'x' * 5000 + '", 1)', 'long_one'),       # a line longer than any read-size limit
+    ('text', 'chatter ' + 'y' * 9000, None),
 ]
 # the two connections variant (current dialect with connection tags)
 POOL2 = [
@@ -50,13 +52,20 @@ class FakeTextIO:
         self.out = out
         self.seen = []     # number of output items at each readline() call
 
-    def readline(self):
+    def readline(self, size=-1):
         self.seen.append(len(self.out.items))
         if self.i >= len(self.lines):
             return ''
         l = self.lines[self.i]
+        if size is not None and 0 <= size < len(l):
+            # a bounded read returns a piece of the line; the rest is read next
+            self.lines[self.i] = l[size:]
+            return l[:size]
         self.i += 1
         return l
+
+    def seekable(self):
+        return False
 
 
 _loaded = []
@@ -105,6 +114,7 @@ def stream(ctx, case):
             ctx.assume(False)
     last_newline = ctx.choose([True, False], 'last_newline') if n > 0 else True
     lines = [pool[i][1] + '\n' for i in idx]
+    n_lines = len(lines)
     if n > 0 and not last_newline:
         lines[-1] = lines[-1][:-1]
         if lines[-1] == '':
@@ -135,7 +145,7 @@ def stream(ctx, case):
         else:
             ctx.check('line %r comes out as a decoded message, in its place' % e[2], msg_re.match(s) is not None and ('.' + e[1] + '(') in s)
     # ---- pacing: at the i-th readline() the items of lines 0..i-1 are already written
-    ctx.check('one readline per line plus the EOF probe', len(f.seen) == n + 1)
+    ctx.check('one read per line plus the EOF probe', len(f.seen) == n + 1)
     produced = 0
     for i in range(min(len(f.seen), n + 1)):
         upto = [s for s in items[:f.seen[i]] if not is_notice(s)]
@@ -218,7 +228,7 @@ def twin(ctx, case):
 
 
 def obligations(tier):
-    n1 = 4 if tier == 'quick' else 5
+    n1 = 3 if tier == 'quick' else 4
     cases = []
     for n in range(0, n1 + 1):
         for supress in (False, True):
